@@ -13,13 +13,15 @@ theorem blockTxs_append (e : Env) (l1 l2 : List Nat) : blockTxs e (l1 ++ l2) = b
 /-- **every element of the trace of a walk satisfies the ledger invariant of C02** for a suitable ghost log — hence
 (`Ledger.toPoolInv`, `Ledger.invariants`) one row per key, conservation, supply, and *every input of every pending
 transaction is spent*: the pool contains only transactions whose effects are present. Hypotheses: those of
-`walk_Ledger` (C02), which is the same statement for the last element only. -/
+`walk_Ledger` (C02), which is the same statement for the last element only (after the repair of `recoverUnconfirmedTx`:
+`hskip` — the ledger's skip list names every pending transaction the chain walked to confirms — instead of the former
+dynamic hypothesis `hre`; the re-admission batches run over `repostList e s`). -/
 theorem walkTrace_Ledger (e : Env) (s : St) (lh : Int) (dest : Nat) (prune : Bool) (C C0 : List Nat) (h : Ledger e s C)
     (hundo : C = C0 ++ blockTxs e (undoTodo e s.pointer dest).1.reverse)
     (hnd : (C0 ++ blockTxs e (undoTodo e s.pointer dest).2).Nodup)
     (hblk : ∀ bi ∈ (undoTodo e s.pointer dest).2, (∀ i ∈ (e.block bi).txs, (e.tx i).id = i) ∧
       (∀ i ∈ (e.block bi).txs, (e.tx i).coinbase = true → (e.tx i).ins = [] ∧ feeOf (e.tx i).outs = 0))
-    (hre : ∀ i ∈ s.pool, i ∈ C0 ++ blockTxs e (undoTodo e s.pointer dest).2 → (e.tx i).ins ≠ [])
+    (hskip : SkipsConfirmed e s (C0 ++ blockTxs e (undoTodo e s.pointer dest).2))
     (x : St) (hx : x ∈ walkTrace e s lh dest prune) : ∃ C', Ledger e x C' := by
   -- batch 1: the pool rolled back (as in `walk_Ledger`)
   have hl := h.led
@@ -79,7 +81,9 @@ theorem walkTrace_Ledger (e : Env) (s : St) (lh : Int) (dest : Nat) (prune : Boo
     rw [hxe]
     apply readmit_Ledger e lh A _ _ hcore
     intro i hi
-    have hip : i ∈ s.pool := by rw [hsplit]; exact List.mem_append_left _ hi
-    exact ⟨hl.idEq i (List.mem_append_right _ hip), h.poolNonCoinbase i hip, hre i hip⟩
+    have hir : i ∈ repostList e s := by rw [hsplit]; exact List.mem_append_left _ hi
+    have hip : i ∈ s.pool := repostList_subset e s i hir
+    exact ⟨hl.idEq i (List.mem_append_right _ hip), h.poolNonCoinbase i hip,
+      fun hc => absurd hc (hskip.not_confirmed i hir)⟩
 
 end XV.Crash
